@@ -33,6 +33,15 @@ def run(ck: Check, repo: Repo) -> None:
     ck.rule("C07.4", "alias attributes: an attribute that refers to a sub-module of a registered network is not restored from a pickled copy "
                      "(it is excluded from the saved attributes or re-derived after loading)")
     ck.rule("C07.5", "prefix selection of per-network entries is followed by exact-key reads only")
+    ck.rule("C07.6", "what was restored stays restored: OptimizerWrapper.load_state_dict only delegates to the torch optimizers (nothing of the loaded "
+                     "param_groups / state is rewritten afterwards), and no registered hook that assigns checkpointed plain attributes runs after the loaders restored them")
+    ck.rule("C07.7", "training bookkeeping survives: every attribute an algorithm updates from its own previous value (self.x += ..., self.x[k] += ...) has a name "
+                     "that inspect_attributes() does not filter out, so it is part of checkpoints (and of clones)")
+    ck.rule("C07.8", "activation changes reach the constructor description: a module's change_activation that replaces or rebuilds its layers also stores the "
+                     "new activation in the attributes init_dict reports (`activation`; `output_activation` when the output layer is changed), like its siblings do")
+    _restored_stays(ck, repo)
+    _bookkeeping(ck, repo)
+    _activation_description(ck, repo)
     writer = repo.fn(BASE, "get_checkpoint_dict")
     load = repo.fn(BASE, "EvolvableAlgorithm.load")
     load_cp = repo.fn(BASE, "EvolvableAlgorithm.load_checkpoint")
@@ -70,6 +79,149 @@ def run(ck: Check, repo: Repo) -> None:
     _alias_attrs(ck, repo, writer)
     _prefix(ck, repo, (load, load_cp))
     _wrapper(ck, repo)
+
+
+# ------------------------------------------------------------------------------------------------ C07.6
+def _restored_stays(ck: Check, repo: Repo) -> None:
+    ow = repo.fn("agilerl.algorithms.core.wrappers", "OptimizerWrapper.load_state_dict")
+    delegated = [c for c in calls_in(ow.node, nested=True) if last_attr(c) == "load_state_dict"]
+    ck.floor("C07.6", len(delegated), 2, "delegations to torch optimizers (single- and multi-agent form)", fn=ow)
+    bad = []
+    for n in ast.walk(ow.node):
+        tgt = None
+        if isinstance(n, (ast.Assign, ast.AugAssign)):
+            t = n.targets[0] if isinstance(n, ast.Assign) else n.target
+            if isinstance(t, (ast.Subscript, ast.Attribute)):
+                tgt = t
+        elif isinstance(n, ast.Call) and call_name(n) == "setattr":
+            tgt = n
+        elif isinstance(n, ast.Call) and isinstance(n.func, ast.Attribute) and n.func.attr in ("update", "clear", "pop", "setdefault", "add_param_group", "zero_", "fill_", "copy_"):
+            tgt = n
+        if tgt is not None and not (isinstance(tgt, ast.Attribute) and False):
+            bad.append(n)
+    for n in bad or [None]:
+        ck.ob("C07.6", ow, n if n is not None else ow.node, n is None, "OptimizerWrapper.load_state_dict changes nothing after handing the saved state to the torch optimizer",
+              detail=f"`{short(n, 80) if n is not None else ''}` writes into the optimizer after its state was loaded: the restored agent then steps with a value "
+                     "(e.g. the learning rate the receiving agent was constructed with) that differs from the checkpoint",
+              construct=f"OptimizerWrapper.load_state_dict: write {short(n, 60) if n is not None else 'none'}")
+    # hooks that assign plain (checkpointed) attributes
+    flt = _name_filter(repo)
+    clobber: Dict[str, List[str]] = {}
+    for modname, cname in ALGOS:
+        reg = extract(repo, modname, cname)
+        nets = set(reg.eval_attrs() + reg.shared_attrs()) | {o.name for o in getattr(reg, "opts", [])}
+        for h in reg.hooks:
+            m = reg.cls.methods.get(h.name)
+            if m is None:
+                continue
+            plain = sorted(a for a in self_attr_stores(m) if not _filtered(a, flt) and a not in nets)
+            if plain:
+                clobber[f"{cname}.{h.name}"] = plain
+    ck.note("hooks_assigning_plain_attributes", clobber)
+    for q in ("EvolvableAlgorithm.load", "EvolvableAlgorithm.load_checkpoint"):
+        fn = repo.fn(BASE, q)
+        cfg = CFG(fn.node)
+        # the restore loop: setattr(<agent>, <loop variable>, <checkpoint>[...] / .get(...)) inside a for loop
+        restores = []
+        for lp in [x for x in walk_no_nested(fn.node) if isinstance(x, ast.For) and isinstance(x.target, ast.Name)]:
+            for c in calls_in(lp):
+                if call_name(c) == "setattr" and len(c.args) == 3 and dotted(c.args[1]) == lp.target.id and ast.unparse(c.args[2]).endswith((f"[{lp.target.id}]", f".get({lp.target.id})")):
+                    restores.append(cfg.node_of(c))
+        restores = [r for r in restores if r is not None]
+        ck.ob("C07.6", fn, fn.node, bool(restores), f"{fn.name}: plain attributes are restored by a setattr loop", construct=f"{fn.name}: restore loop")
+        hook_calls = [c for c in calls_in(fn.node) if last_attr(c) in ("mutation_hook", "_mutation_hook") or (last_attr(c) or "").endswith("_hook")]
+        for c in hook_calls:
+            hn = cfg.node_of(c)
+            after = hn is not None and any(hn.id in cfg.reachable_from(r) and not cfg.dominates(hn, r) for r in restores)
+            ck.ob("C07.6", fn, c, not (after and clobber), f"{fn.name}: registered hooks do not run after the plain attributes were restored",
+                  detail=f"`{short(c, 40)}` runs after the restore loop; hooks that assign checkpointed attributes: {clobber} — the restored values "
+                         "(e.g. the bandits' sigma_inv / theta_0 history) are reset to their initial values",
+                  construct=f"{fn.name}: hook call {short(c, 40)} relative to the restore loop")
+        ck.floor("C07.6", len(hook_calls), 1, f"{fn.name}: hook calls")
+
+
+def _name_filter(repo: Repo) -> Dict[str, List[str]]:
+    """Prefixes / suffixes that inspect_attributes() filters out, read from its own filter expression."""
+    ia = repo.fn(BASE, "EvolvableAlgorithm.inspect_attributes")
+    out: Dict[str, List[str]] = {"startswith": [], "endswith": []}
+    for c in calls_in(ia.node, nested=True):
+        if last_attr(c) in out and c.args and isinstance(c.args[0], ast.Constant) and isinstance(c.args[0].value, str):
+            out[last_attr(c)].append(c.args[0].value)
+    if not out["startswith"] and not out["endswith"]:
+        raise AnalysisError("inspect_attributes: name filter not found")
+    return out
+
+
+def _filtered(name: str, flt: Dict[str, List[str]]) -> bool:
+    return any(name.startswith(p) for p in flt["startswith"]) or any(name.endswith(p) for p in flt["endswith"])
+
+
+# ------------------------------------------------------------------------------------------------ C07.7
+def _bookkeeping(ck: Check, repo: Repo) -> None:
+    flt = _name_filter(repo)
+    n = 0
+    seen = set()
+    for modname, cname in ALGOS:
+        cls = repo.cls(modname, cname)
+        for c in repo.mro(cls):
+            if not c.mod.name.startswith("agilerl.algorithms"):
+                continue
+            for m in c.methods.values():
+                if m.name == "__init__":
+                    continue
+                for x in walk_no_nested(m.node):
+                    attr = None
+                    if isinstance(x, ast.AugAssign):
+                        t = x.target
+                        while isinstance(t, ast.Subscript):
+                            t = t.value
+                        if isinstance(t, ast.Attribute) and dotted(t.value) == "self":
+                            attr = t.attr
+                    elif isinstance(x, ast.Assign) and len(x.targets) == 1 and isinstance(x.targets[0], ast.Attribute) and dotted(x.targets[0].value) == "self" \
+                            and isinstance(x.value, ast.BinOp) and any(isinstance(y, ast.Attribute) and dotted(y) == f"self.{x.targets[0].attr}" for y in ast.walk(x.value)):
+                        attr = x.targets[0].attr
+                    if attr is None or (c.name, m.name, attr) in seen:
+                        continue
+                    seen.add((c.name, m.name, attr))
+                    n += 1
+                    ck.ob("C07.7", m, x, not _filtered(attr, flt), f"{c.name}.{m.name}: the running state `self.{attr}` is kept by inspect_attributes (checkpoint, clone)",
+                          detail=f"`self.{attr}` is updated from its own previous value but its name is filtered out by inspect_attributes "
+                                 f"(prefixes {flt['startswith']}, suffixes {flt['endswith']}): a restored agent starts again from the constructor value "
+                                 "(e.g. TD3's delayed policy update happens on the opposite steps)",
+                          construct=f"{c.name}.{m.name}: carried state self.{attr}")
+    ck.floor("C07.7", n, 5, "attributes updated from their own previous value in algorithm methods")
+
+
+# ------------------------------------------------------------------------------------------------ C07.8
+def _activation_description(ck: Check, repo: Repo) -> None:
+    n = 0
+    for modname in ("agilerl.modules.mlp", "agilerl.modules.cnn", "agilerl.modules.lstm", "agilerl.modules.multi_input", "agilerl.modules.simba", "agilerl.modules.resnet"):
+        mod = repo.mod(modname)
+        for cls in mod.classes.values():
+            ca = cls.methods.get("change_activation")
+            init = cls.methods.get("__init__")
+            if ca is None or init is None:
+                continue
+            body = [st for st in ca.node.body if not (isinstance(st, ast.Expr) and isinstance(st.value, ast.Constant)) and not isinstance(st, ast.Pass)
+                    and not (isinstance(st, ast.Return) and st.value is None)]
+            if not body:
+                continue  # a module without activations of its own: nothing to describe
+            params = set(init.named_params)
+            act_p = ca.named_params[1] if len(ca.named_params) > 1 else "activation"
+            stores = self_attr_stores(ca)
+            n += 1
+            if "activation" in params:
+                ck.ob("C07.8", ca, ca.node, any(dotted(v) == act_p for v in stores.get("activation", [])),
+                      f"{cls.name}.change_activation stores the new activation in self.activation (reported by init_dict)", construct=f"{cls.name}.change_activation: activation")
+            if "output_activation" in params:
+                changes_output = any(a not in ("activation", "output_activation") for a in stores) or any(last_attr(c) == "recreate_network" for c in calls_in(ca.node))
+                ok = any(dotted(v) == act_p for v in stores.get("output_activation", []))
+                ck.ob("C07.8", ca, ca.node, ok or not changes_output,
+                      f"{cls.name}.change_activation stores the new output activation in self.output_activation when it changes the output layer",
+                      detail=f"the method replaces / rebuilds layers ({sorted(a for a in stores if a not in ('activation', 'output_activation'))}) but init_dict keeps the "
+                             "constructor's output_activation: a clone, a checkpoint or a re-created target built from init_dict ends in the old activation",
+                      construct=f"{cls.name}.change_activation: output_activation")
+    ck.floor("C07.8", n, 4, "change_activation implementations with a body")
 
 
 def _written(writer: Fn) -> Tuple[Set[str], Set[str], Set[str]]:
@@ -266,6 +418,12 @@ def _wrapper(ck: Check, repo: Repo) -> None:
 _BF = "agilerl/algorithms/core/base.py"
 _WF = "agilerl/wrappers/agent.py"
 VARIANTS = [
+    ("multi-input-output-activation-not-described", "agilerl/modules/multi_input.py", "            self.output_activation = activation\n            self.output = get_activation(activation)", "            self.output = get_activation(activation)", "fire", "C07.8"),
+    ("mlp-activation-not-described", "agilerl/modules/mlp.py", "        self.activation = activation\n        self.recreate_network()\n\n    @mutation(MutationType.LAYER)\n    def add_layer", "        self.recreate_network()\n\n    @mutation(MutationType.LAYER)\n    def add_layer", "fire", "C07.8"),
+    ("optimizer-lr-overwritten-after-load", "agilerl/algorithms/core/wrappers.py", "            self.optimizer.load_state_dict(state_dict)\n\n    def state_dict(self)", "            self.optimizer.load_state_dict(state_dict)\n            for param_group in self.optimizer.param_groups:\n                param_group[\"lr\"] = self.lr\n\n    def state_dict(self)", "fire", "C07.6"),
+    ("hook-after-attribute-restore", "agilerl/algorithms/core/base.py", "        for attribute in checkpoint.keys():\n            setattr(self, attribute, checkpoint[attribute])\n", "        for attribute in checkpoint.keys():\n            setattr(self, attribute, checkpoint[attribute])\n\n        self.mutation_hook()\n", "fire", "C07.6"),
+    ("td3-private-learn-counter", "agilerl/algorithms/td3.py", "        self.learn_counter += 1", "        self._learn_counter += 1", "fire", "C07.7"),
+    ("td3-counter-explicit-sum-ok", "agilerl/algorithms/td3.py", "        self.learn_counter += 1", "        self.learn_counter = self.learn_counter + 1", "silent", None),
     ("writer-drops-lr-key", _BF, "                    f\"{attr}_lr\": obj.lr_name,\n", "", "fire", "C07.1"),
     ("writer-renames-key", _BF, "                    f\"{attr}_init_dict\": init_dict,\n", "                    f\"{attr}_config\": init_dict,\n", "fire", "C07.1"),
     ("load-optimizer-before-weights", _BF, "        # Reconstruct optimizers in algorithm\n        optimizer_names = network_info[\"optimizer_names\"]\n        loaded_optimizers = {}\n", "        optimizer_names = network_info[\"optimizer_names\"]\n        loaded_optimizers = {}\n", "silent", None),
